@@ -99,22 +99,18 @@ def applyWrite (news : List (Addr × Nat)) (h : Heap) (j : Json) : Except String
       match news.find? (fun p => p.2 == k) with
       | some (a, _) => pure a
       | none => throw s!"write: no new cell number {k}")
-  let r : Option Heap ←
+  let probe : Scalar := ⟨"string", "probe"⟩
+  let o : Op ←
     match op with
-    | "addLeaf" => do
-      let (h1, l) := newLeaf h ⟨"string", "probe"⟩
-      pure (Ytk.Heap.addValue h1 tgt (← Wire.getStr j "name") l)
-    | "addContainer" => do pure ((addContainer h tgt (← Wire.getStr j "name")).map (·.1))
-    | "addList" => do pure ((addList h tgt (← Wire.getStr j "name")).map (·.1))
-    | "remove" => do pure (Ytk.Heap.remove h tgt (← Wire.getStr j "name"))
-    | "listSet" => do
-      let (h1, l) := newLeaf h ⟨"string", "probe"⟩
-      pure (Ytk.Heap.listSet h1 tgt ((Wire.getNat j "idx").toOption.getD 0) l)
-    | "listAppend" => do
-      let (h1, l) := newLeaf h ⟨"string", "probe"⟩
-      pure (Ytk.Heap.listAppend h1 tgt l)
-    | "listClear" => pure (Ytk.Heap.listClear h tgt)
+    | "addLeaf" => do pure (Op.addLeaf tgt (← Wire.getStr j "name") probe)
+    | "addContainer" => do pure (Op.addContainer tgt (← Wire.getStr j "name"))
+    | "addList" => do pure (Op.addList tgt (← Wire.getStr j "name"))
+    | "remove" => do pure (Op.remove tgt (← Wire.getStr j "name"))
+    | "listSet" => pure (Op.listSetLeaf tgt ((Wire.getNat j "idx").toOption.getD 0) probe)
+    | "listAppend" => pure (Op.listAppendLeaf tgt probe)
+    | "listClear" => pure (Op.listClear tgt)
     | _ => throw s!"unknown write {op}"
+  let r := applyOp h o
   match r with
   | some h' => pure h'
   | none => throw s!"write {op} at {tgt}: wrong cell kind"
